@@ -114,12 +114,6 @@ Theorem C06_registry_complete_partial :
 Proof. exact registry_complete_partial. Qed.
 Print Assumptions C06_registry_complete_partial.
 
-(* The unguarded statement is false of today's table (emodulus, 2-channel
-   fl*_max_ctc). *)
-Theorem C06_registry_complete_refuted :
-  exists r, In r registry /\ uses_declared r = false.
-Proof. exact registry_complete_refuted. Qed.
-Print Assumptions C06_registry_complete_refuted.
 
 (* Instances whose cache keys can coincide have the same required features,
    method and ingredients (so a slot filled by one may be used by the other). *)
@@ -140,7 +134,7 @@ Proof. exact emodulus_precedence. Qed.
 Print Assumptions C06_emodulus_precedence.
 
 (* ... and compute_emodulus uses the inputs of that scenario, unless a
-   viscosity is configured next to a medium. *)
+   viscosity is configured next to a medium (listed finding). *)
 Theorem C06_emodulus_inputs_partial :
   forall (lut med tmp visc vm ht : bool),
     visc && med = false ->
@@ -149,37 +143,9 @@ Theorem C06_emodulus_inputs_partial :
 Proof. exact emodulus_inputs_partial. Qed.
 Print Assumptions C06_emodulus_inputs_partial.
 
-Theorem C06_emodulus_inputs_refuted :
-  exists (lut med tmp visc vm ht : bool),
-    spec_scenario lut med tmp visc ht <> 0 /\
-    taken lut med tmp visc vm ht 1 <> spec_scenario lut med tmp visc ht.
-Proof. exact emodulus_inputs_refuted. Qed.
-Print Assumptions C06_emodulus_inputs_refuted.
-
-(* "available exactly when reading succeeds" is false: case-A ingredients
-   plus 'emodulus viscosity'. *)
-Theorem C06_available_iff_readable_refuted :
-  exists b : base,
-    contains AF registry (fresh b) f_emodulus = true
-    /\ snd (read RF registry (fresh b) f_emodulus) = Err e_value.
-Proof. exact available_iff_readable_refuted. Qed.
-Print Assumptions C06_available_iff_readable_refuted.
-
-(* availability on a long-lived dataset can differ from a fresh one. *)
-Theorem C06_contains_fresh_refuted :
-  exists (b : base) (ops : list op) (f : Z),
-    let st := run_state registry (fresh b) ops in
-    contains AF registry st f = true
-    /\ contains AF registry (clear st) f = false
-    /\ snd (read RF registry st f) = Err e_key.
-Proof. exact contains_fresh_refuted. Qed.
-Print Assumptions C06_contains_fresh_refuted.
-
-(* a read can return a value that a fresh dataset would not compute. *)
-Theorem C06_read_fresh_refuted :
-  exists (b : base) (ops : list op) (f : Z),
-    let st := run_state registry (fresh b) ops in
-    exists v v0, snd (read RF registry st f) = Ok v
-                 /\ snd (read RF registry (clear st) f) = Ok v0 /\ v <> v0.
-Proof. exact read_fresh_refuted. Qed.
-Print Assumptions C06_read_fresh_refuted.
+(* The listed findings (emodulus available-but-unreadable, stale values of
+   the 2-channel crosstalk correction and of emodulus next to a viscosity,
+   cached features that stay listed) are witnessed by the booleans
+   [finding_witnesses] of Proofs/C06_registry.v, evaluated by the harness;
+   they are not theorems, so repairing a recorded defect does not break the
+   build. *)
